@@ -47,6 +47,14 @@ def call_prim(ip, name, args, kwargs):
         F = z3.Function("SemAt", V.Val, V.Val, V.Val, V.I, V.Val, V.B)
         jj = ip.as_int(j)
         return ZBool(F(ip.to_z(cond), ip.to_z(data.attrs["_keys"]), ip.to_z(data.attrs["_values"]), jj, ip.to_z(src)))
+    if name in ("PartApplies", "PartVals", "PartKeys"):
+        part, node = ip.to_z(args[0]), ip.to_z(args[1])
+        if name == "PartApplies":
+            return ZBool(z3.Function("PartApplies", V.Val, V.Val, V.B)(part, node))
+        from .sym import LList
+        return LList(None, z3.Function(name, V.Val, V.Val, V.VS)(part, node))
+    if name == "all_lists":
+        return _all_lists(ip, args[0])
     if name == "IsJson":
         return _is_json(ip, args[0])
     if name == "Binds":
@@ -110,15 +118,53 @@ def _forall(ip, n, fn):
         raise Unsupported("forall_idx bound")
     mode = getattr(ip, "clause_mode", "goal")
     if mode == "assume":
+        # the body is interpreted once, at a generic index; instances are substitutions
+        j0 = V.fresh("qj", V.I)
+        tpl = []
+
         def fact(j, ip=ip, fn=fn, nn=nn):
-            body = merged_bool(ip, lambda sub: sub.call(fn, [ZInt(j)], {}), ("forall", value_key(fn), tid(j)))
-            return z3.Implies(z3.And(j >= 0, j < nn), body)
+            if not tpl:
+                tpl.append(merged_bool(ip, lambda sub: sub.call(fn, [ZInt(j0)], {}), ("forall", value_key(fn), tid(j0))))
+            return z3.Implies(z3.And(j >= 0, j < nn), z3.substitute(tpl[0], (j0, j)))
         ip.path.add_qfact(fact)
         return C(True)
     j = V.fresh("sk", V.I)
     insts = ip.path.instances(j)
     body = merged_bool(ip, lambda sub: sub.call(fn, [ZInt(j)], {}), ("forall", value_key(fn), tid(j)))
+    # the known quantified facts are also instantiated at the other index terms the goal reads sequences at
+    # (an element of a concatenation a ++ b at position j is b's element at j - len(a))
+    for t in index_terms(body, j):
+        insts += ip.path.instances(t)
     return ZBool(z3.Implies(z3.And([j >= 0, j < nn] + insts), body))
+
+
+def index_terms(body, j, limit=12):
+    out, seen, stack = [], set(), [body]
+    def add(t):
+        t = z3.simplify(t)
+        if t.get_id() not in seen and not t.eq(j) and len(out) < limit:
+            seen.add(t.get_id())
+            out.append(t)
+    visited = set()
+    while stack:
+        t = stack.pop()
+        if t.get_id() in visited or not z3.is_app(t):
+            continue
+        visited.add(t.get_id())
+        if t.decl().kind() == z3.Z3_OP_SEQ_NTH or t.decl().name() in ("seq.nth", "seq.nth_i", "seq.nth_u"):
+            s, i = t.arg(0), t.arg(1)
+            add(i)
+            off = i
+            segs = [s]
+            while segs:
+                sg = segs.pop(0)
+                if z3.is_app(sg) and sg.decl().kind() == z3.Z3_OP_SEQ_CONCAT:
+                    acc = off
+                    for c in sg.children()[:-1]:
+                        acc = acc - z3.Length(c)
+                        add(acc)
+        stack.extend(t.children())
+    return out
 
 
 def _is_json(ip, v):
@@ -156,3 +202,41 @@ def _is_json(ip, v):
         else:
             acc.append(c.b)
     return ZBool(z3.And(acc)) if acc else C(True)
+
+
+ALL_LISTS = z3.Function("AllLists", V.VS, V.B)
+_AL_SEEN = {}
+
+
+def _all_lists(ip, xs):
+    """all_lists(xs): every element of the sequence is a list.  Kept as an opaque predicate AllLists(s) with three rules,
+    each true of that meaning: (use) AllLists(s) and 0 <= j < len(s) give is_list(s[j]) - registered as a quantified fact;
+    (build) AllLists of a concatenation / unit / empty sequence / map comprehension whose element expression is a list
+    for every element is reduced, when it is a proof goal, to AllLists of the pieces."""
+    from .sym import LList
+    from .comp import tid, comp_element_function
+    s = V.seq_items(xs.t) if isinstance(xs, Z) else ip.seq_of(xs)
+    atom = ALL_LISTS(s)
+    if tid(s) not in _AL_SEEN or True:
+        ip.path.add_qfact(lambda j, s=s, atom=atom: z3.Implies(z3.And(atom, j >= 0, j < z3.Length(s)), V.is_list(s[j])))
+
+    def build(t):
+        if z3.is_app(t):
+            k = t.decl().kind()
+            if k == z3.Z3_OP_SEQ_CONCAT:
+                return z3.And([build(c) for c in t.children()])
+            if k == z3.Z3_OP_SEQ_EMPTY:
+                return z3.BoolVal(True)
+            if k == z3.Z3_OP_SEQ_UNIT:
+                return V.is_list(t.arg(0))
+            ef = comp_element_function(t)
+            if ef is not None:
+                sv = z3.Solver()
+                sv.set("timeout", 3000)
+                sv.add(z3.Not(V.is_list(ef)))
+                if sv.check() == z3.unsat:
+                    return z3.BoolVal(True)
+        return ALL_LISTS(t)
+    if getattr(ip, "clause_mode", "goal") == "assume":
+        return ZBool(z3.And(atom, build(s)))
+    return ZBool(build(s))
